@@ -213,7 +213,39 @@ fn script(program: &str, ops: &[Op], placement: u8) -> String {
             _ => {}
         }
     }
-    s.push_str("c.stdout_capture()\nmake r get c.run()\nshout(r.exit_code())\nshout(r.stdout())\n");
+    // placements 3..=6: the command is a value — configuring a copy (another variable, a parameter,
+    // an array element) never changes what the other one runs with
+    let pollute = |v: &str| {
+        format!(
+            "{v}.arg(\"EXTRA\")\n{v}.env(\"VEXTRA\", \"polluted\")\n{v}.stdin_text(\"polluted-stdin\")\n{v}.cwd(\"/\")\n"
+        )
+    };
+    let runner = match placement {
+        3 => {
+            s.push_str("make d get c\n");
+            s.push_str(&pollute("d"));
+            "c"
+        }
+        4 => {
+            s.push_str("make d get c\n");
+            s.push_str(&pollute("c"));
+            "d"
+        }
+        5 => {
+            s.push_str("do spoil(q) start\n");
+            s.push_str(&pollute("q"));
+            s.push_str("return q\nend\nmake d get spoil(c)\n");
+            "c"
+        }
+        6 => {
+            s.push_str("make arr get [c, c]\n");
+            s.push_str(&pollute("arr[0]"));
+            s.push_str("make d get arr[1]\n");
+            "d"
+        }
+        _ => "c",
+    };
+    s.push_str(&format!("{runner}.stdout_capture()\nmake r get {runner}.run()\nshout(r.exit_code())\nshout(r.stdout())\n"));
     s
 }
 
@@ -285,13 +317,15 @@ fn check_state(ctx: &mut Ctx, d: &Dirs, program: &str, ops: &[Op], caps: Process
     for op in ops {
         m.apply(op);
     }
-    for placement in 0..3u8 {
-        if placement > 0 && ops.is_empty() {
-            break;
+    for placement in 0..7u8 {
+        if (1..3).contains(&placement) && ops.is_empty() {
+            continue;
         }
         check_state_placed(ctx, d, program, ops, caps, spawned, refused, &m, placement)
             .map_err(|(c, mut j)| {
-                j["placement"] = json!(["straight-line", "each call in a loop body", "each call in a function"][placement as usize]);
+                j["placement"] = json!(["straight-line", "each call in a loop body", "each call in a function", "a copy is configured further, the original runs",
+                    "the original is configured further, the copy runs", "a parameter copy is configured further, the original runs",
+                    "one array element is configured further, the other runs"][placement as usize]);
                 (c, j)
             })?;
     }
@@ -302,7 +336,7 @@ fn check_state(ctx: &mut Ctx, d: &Dirs, program: &str, ops: &[Op], caps: Process
 fn check_state_placed(ctx: &mut Ctx, d: &Dirs, program: &str, ops: &[Op], caps: ProcessCaps, spawned: &mut u64, refused: &mut u64, m: &Model, placement: u8) -> Result<(), Bad> {
     let src = script(program, ops, placement);
     // --- policy: processes forbidden → always denied, nothing spawned
-    if !m.builder_error {
+    if !m.builder_error && placement < 3 {
         clear_markers(d);
         ctx.policy = HostPolicy { allow_process: false, process: caps };
         let o = drive::run_pipeline(ctx, &src, M0, RunOpts::default());
